@@ -56,36 +56,47 @@ Qed.
 
 (* ------------------------------------------------------------------ bufs_modified *)
 (* the record is never touched; must-stay <=> the save did not say ok; a failure keeps the ghost as well *)
+Lemma kos_refl : forall l : list gbuf, Forall2 kept_or_saved l l.
+Proof. induction l; constructor; [left; reflexivity | assumption]. Qed.
+Lemma kos_inv : forall tb tb', Forall2 kept_or_saved tb tb' -> aw_inv tb -> aw_inv tb'.
+Proof.
+  unfold aw_inv. induction 1 as [|x x' l l' K _ IH]; intro I; [constructor|]. inversion I; subst.
+  constructor; [|apply IH; assumption]. destruct K as [->|[_ [_ [_ K]]]]; assumption.
+Qed.
 Lemma bm_g_record now aw lk x fs sch blk st x' fs' r :
   bm_g bufs_modified now aw lk x fs sch = (blk, st, x', fs', r) ->
-  fst x' = fst x /\ (blk = true <-> st <> SOk) /\ (st <> SOk -> x' = x) /\ (st = SRefused -> fs' = fs /\ r = sch).
+  kept_or_saved x x' /\ (blk = true <-> st <> SOk) /\ (st <> SOk -> x' = x) /\ (st = SRefused -> fs' = fs /\ r = sch).
 Proof.
   unfold bm_g, bufs_modified. destruct x as [bf g]. cbn [fst snd].
   destruct (b_dirty bf); cbn [negb andb].
   - destruct aw.
     + destruct (lbuf_save_l now (b_lines bf) 0 (length (b_lines bf)) lk (b_path bf) false (b_mtime bf) fs sch) as [[st0 fs0] r0] eqn:E.
-      intro H. inversion H; subst. split; [reflexivity|].
-      split; [destruct st; split; congruence|]. split; [destruct st; congruence|].
-      intro X. subst st.
-      unfold lbuf_save_l in E. destruct (resolve lk (b_path bf)) as [q|].
-      * destruct (lbuf_save_spec _ _ _ _ _ _ _ _ _ _ _ _ E) as [_ [u [U [A _]]]]. destruct (A eq_refl) as [_ [-> ->]]. split; [reflexivity | symmetry; exact U].
-      * destruct (refuses false (b_mtime bf) (-1)); inversion E; subst; split; reflexivity.
-    + intro H. inversion H; subst. repeat split; try congruence; try (intros; discriminate).
-  - intro H. inversion H; subst. repeat split; try congruence; try (intros; discriminate).
+      destruct st0; intro H; inversion H; subst.
+      * split; [right; cbn [fst snd b_lines b_path b_dirty b_mtime]; repeat split|].
+        split; [split; congruence|]. split; [congruence | discriminate].
+      * split; [left; reflexivity|]. split; [split; congruence|]. split; [reflexivity|]. intros _.
+        unfold lbuf_save_l in E. destruct (resolve lk (b_path bf)) as [q|].
+        -- destruct (lbuf_save_spec _ _ _ _ _ _ _ _ _ _ _ _ E) as [_ [u [U [A _]]]]. destruct (A eq_refl) as [_ [-> ->]]. split; [reflexivity | symmetry; exact U].
+        -- destruct (refuses false (b_mtime bf) (-1)); inversion E; subst; split; reflexivity.
+      * split; [left; reflexivity|]. split; [split; congruence|]. split; [reflexivity | discriminate].
+    + intro H. inversion H; subst. split; [left; reflexivity|]. split; [split; congruence|]. split; [reflexivity|]. intros _; split; reflexivity.
+  - intro H. inversion H; subst. split; [left; reflexivity|]. split; [split; congruence|]. split; [reflexivity | discriminate].
+Qed.
+(* after an autowrite that said ok: saved mark set, remembered stamp = ghost = the stamp the file has now = the editor's clock *)
+Lemma bm_g_ok_record now lk x fs sch blk x' fs' r :
+  bm_g bufs_modified now true lk x fs sch = (blk, SOk, x', fs', r) -> b_dirty (fst x) = true ->
+  b_dirty (fst x') = false /\ b_mtime (fst x') = snd x' /\ snd x' = mtime_of lk fs' (b_path (fst x)) /\ snd x' = now.
+Proof.
+  unfold bm_g, bufs_modified. destruct x as [bf g]. cbn [fst snd]. intros H D. rewrite D in H. cbn [negb andb] in H.
+  destruct (lbuf_save_l now (b_lines bf) 0 (length (b_lines bf)) lk (b_path bf) false (b_mtime bf) fs sch) as [[st0 fs0] r0] eqn:E.
+  destruct st0; inversion H; subst. cbn [fst snd b_dirty b_mtime]. repeat split.
+  exact (lbuf_save_l_ok_stamp _ _ _ _ _ _ _ _ _ _ _ _ E).
 Qed.
 Lemma bm_g_inv now aw lk x fs sch blk st x' fs' r :
   bm_g bufs_modified now aw lk x fs sch = (blk, st, x', fs', r) ->
-  (b_mtime (fst x) <= now)%Z -> (b_mtime (fst x) <= snd x)%Z -> (b_mtime (fst x') <= snd x')%Z.
+  b_mtime (fst x) = snd x -> b_mtime (fst x') = snd x'.
 Proof.
-  intros H C I. destruct (bm_g_record _ _ _ _ _ _ _ _ _ _ _ H) as [F [_ [K _]]].
-  destruct st; [|rewrite (K ltac:(discriminate)); exact I|rewrite (K ltac:(discriminate)); exact I].
-  revert H. unfold bm_g, bufs_modified. destruct x as [bf g]. cbn [fst snd] in *.
-  destruct (b_dirty bf); cbn [negb andb].
-  - destruct aw.
-    + destruct (lbuf_save_l now (b_lines bf) 0 (length (b_lines bf)) lk (b_path bf) false (b_mtime bf) fs sch) as [[st0 fs0] r0] eqn:E.
-      intro H. inversion H; subst. cbn [fst snd]. rewrite (lbuf_save_l_ok_stamp _ _ _ _ _ _ _ _ _ _ _ _ E). exact C.
-    + intro H. inversion H.
-  - intro H. inversion H; subst. exact I.
+  intros H I. destruct (bm_g_record _ _ _ _ _ _ _ _ _ _ _ H) as [[->|[_ [_ [_ K]]]] _]; assumption.
 Qed.
 (* a modified buffer whose file is newer than what the editor read or wrote last may not be left, option on or off:
    nothing is consumed, nothing changes *)
@@ -101,29 +112,20 @@ Qed.
 (* ------------------------------------------------------------------ the head of ec_edit / ec_buffer / ec_exec / ec_make *)
 Lemma leave0_record now aw bang lk tb fs sch blk st tb1 fs1 r1 :
   leave0 bufs_modified now aw bang lk tb fs sch = (blk, st, tb1, fs1, r1) ->
-  map fst tb1 = map fst tb /\ (blk = true <-> st <> SOk) /\ (st <> SOk -> tb1 = tb) /\ (st = SRefused -> fs1 = fs /\ r1 = sch).
+  Forall2 kept_or_saved tb tb1 /\ (blk = true <-> st <> SOk) /\ (st <> SOk -> tb1 = tb) /\ (st = SRefused -> fs1 = fs /\ r1 = sch).
 Proof.
   unfold leave0. destruct tb as [|x rest].
-  - intro H. inversion H; subst. repeat split; try congruence; try (intros; discriminate).
+  - intro H. inversion H; subst. split; [constructor|]. split; [split; congruence|]. split; [reflexivity | discriminate].
   - destruct bang.
-    + intro H. inversion H; subst. repeat split; try congruence; try (intros; discriminate).
+    + intro H. inversion H; subst. split; [apply kos_refl|]. split; [split; congruence|]. split; [reflexivity | discriminate].
     + destruct (bm_g bufs_modified now aw lk x fs sch) as [[[[blk0 st0] x'] fs'] r] eqn:E.
       destruct (bm_g_record _ _ _ _ _ _ _ _ _ _ _ E) as [F [B [K R]]].
-      intro H. inversion H; subst. split; [cbn [map]; rewrite F; reflexivity|]. split; [exact B|].
+      intro H. inversion H; subst. split; [constructor; [exact F | apply kos_refl]|]. split; [exact B|].
       split; [intro X; rewrite (K X); reflexivity | exact R].
 Qed.
 Lemma leave0_inv now aw bang lk tb fs sch blk st tb1 fs1 r1 :
-  leave0 bufs_modified now aw bang lk tb fs sch = (blk, st, tb1, fs1, r1) ->
-  Forall (fun x : gbuf => (b_mtime (fst x) <= now)%Z) tb -> aw_inv tb -> aw_inv tb1.
-Proof.
-  unfold leave0, aw_inv. destruct tb as [|x rest].
-  - intro H. inversion H; subst. auto.
-  - destruct bang.
-    + intro H. inversion H; subst. auto.
-    + destruct (bm_g bufs_modified now aw lk x fs sch) as [[[[blk0 st0] x'] fs'] r] eqn:E.
-      intros H C I. inversion H; subst. inversion C; subst. inversion I; subst.
-      constructor; [exact (bm_g_inv _ _ _ _ _ _ _ _ _ _ _ E H2 H4) | assumption].
-Qed.
+  leave0 bufs_modified now aw bang lk tb fs sch = (blk, st, tb1, fs1, r1) -> aw_inv tb -> aw_inv tb1.
+Proof. intros H I. exact (kos_inv _ _ (proj1 (leave0_record _ _ _ _ _ _ _ _ _ _ _ _ H)) I). Qed.
 Lemma leave0_newer now aw lk (x : gbuf) (rest : list gbuf) fs sch :
   (b_mtime (fst x) <= snd x)%Z -> newer lk fs x -> b_dirty (fst x) = true ->
   leave0 bufs_modified now aw false lk (x :: rest) fs sch = (true, SRefused, x :: rest, fs, sch).
@@ -159,9 +161,7 @@ Proof.
   intros H N. inversion H; subst. rewrite (ec_write_l_keeps _ _ _ _ _ _ _ _ _ _ _ _ _ E N). destruct st; [congruence | reflexivity | reflexivity].
 Qed.
 Lemma write_g_inv now isx force rng lk a tb fs sch st tb' fs' r :
-  write_g now isx force rng lk a tb fs sch = (st, tb', fs', r) ->
-  (aw_inv tb -> aw_inv tb') /\
-  (Forall (fun x : gbuf => (b_mtime (fst x) <= now)%Z) tb -> Forall (fun x : gbuf => (b_mtime (fst x) <= now)%Z) tb').
+  write_g now isx force rng lk a tb fs sch = (st, tb', fs', r) -> aw_inv tb -> aw_inv tb'.
 Proof.
   intro H. destruct st; [|rewrite (write_g_keeps _ _ _ _ _ _ _ _ _ _ _ _ _ H ltac:(discriminate)); auto
                           |rewrite (write_g_keeps _ _ _ _ _ _ _ _ _ _ _ _ _ H ltac:(discriminate)); auto].
@@ -172,7 +172,7 @@ Proof.
   intro H. inversion H; subst.
   destruct (Nat.eqb_spec (b_path b0) path) as [P|P].
   - subst path. destruct (ec_write_l_ok_own _ _ _ _ _ _ _ _ _ _ _ E SK) as [M1 M2].
-    split; intro X; inversion X; subst; constructor; cbn [fst snd]; try assumption; lia.
+    intro X; inversion X; subst; constructor; cbn [fst snd]; assumption.
   - destruct (success_exact_l _ _ _ _ _ _ _ _ _ _ _ _ E SK) as [_ [_ K]]. rewrite (K P). auto.
 Qed.
 (* THE GUARD OVER THE GHOST: the own file is newer than what the editor read or wrote last => refused, untouched *)
@@ -202,56 +202,45 @@ Qed.
 (* ------------------------------------------------------------------ the loop of ec_quit *)
 Lemma quit_scan_record now aw all bang lk : forall tb fs sch k st tb' fs' r,
   quit_scan bufs_modified now aw all bang lk tb fs sch = (k, st, tb', fs', r) ->
-  map fst tb' = map fst tb /\ (k = None -> st = SOk) /\ (forall i, k = Some i -> st <> SOk /\ i < length tb).
+  Forall2 kept_or_saved tb tb' /\ (k = None -> st = SOk) /\
+  (forall i, k = Some i -> st <> SOk /\ i < length tb /\ skipn i tb' = skipn i tb).
 Proof.
   induction tb as [|x rest IH]; intros fs sch k st tb' fs' r.
-  - cbn [quit_scan]. intro H. inversion H; subst. repeat split; try congruence; try (intros; discriminate).
+  - cbn [quit_scan]. intro H. inversion H; subst. split; [constructor|]. split; [reflexivity | discriminate].
   - cbn [quit_scan]. destruct all.
     + destruct (lbuf_save_l now (b_lines (fst x)) 0 (length (b_lines (fst x))) lk (b_path (fst x)) bang (b_mtime (fst x)) fs sch) as [[st0 fs0] r0].
       destruct st0.
       * destruct (quit_scan bufs_modified now aw true bang lk rest fs0 r0) as [[[[k2 st2] rest'] fs2] r2] eqn:E.
-        destruct (IH _ _ _ _ _ _ _ E) as [A [B C]]. intro H. inversion H; subst. cbn [map fst]. rewrite A.
-        split; [reflexivity|]. split; [destruct k2; [discriminate | exact B]|].
-        intros i X. destruct k2 as [j|]; [|discriminate]. inversion X; subst. destruct (C j eq_refl). split; [assumption | cbn [length]; lia].
-      * intro H. inversion H; subst. split; [reflexivity|]. split; [discriminate|]. intros i X. inversion X; subst. split; [discriminate | cbn [length]; lia].
-      * intro H. inversion H; subst. split; [reflexivity|]. split; [discriminate|]. intros i X. inversion X; subst. split; [discriminate | cbn [length]; lia].
+        destruct (IH _ _ _ _ _ _ _ E) as [A [B C]]. intro H. inversion H; subst.
+        split; [constructor; [right; cbn [fst snd b_lines b_path b_dirty b_mtime]; repeat split | exact A]|].
+        split; [destruct k2; [discriminate | exact B]|].
+        intros i X. destruct k2 as [j|]; [|discriminate]. inversion X; subst. destruct (C j eq_refl) as [C1 [C2 C3]].
+        split; [assumption|]. split; [cbn [length]; lia | exact C3].
+      * intro H. inversion H; subst. split; [apply kos_refl|]. split; [discriminate|]. intros i X. inversion X; subst.
+        split; [discriminate|]. split; [cbn [length]; lia | reflexivity].
+      * intro H. inversion H; subst. split; [apply kos_refl|]. split; [discriminate|]. intros i X. inversion X; subst.
+        split; [discriminate|]. split; [cbn [length]; lia | reflexivity].
     + destruct bang.
       * destruct (quit_scan bufs_modified now aw false true lk rest fs sch) as [[[[k2 st2] rest'] fs2] r2] eqn:E.
-        destruct (IH _ _ _ _ _ _ _ E) as [A [B C]]. intro H. inversion H; subst. cbn [map]. rewrite A.
-        split; [reflexivity|]. split; [destruct k2; [discriminate | exact B]|].
-        intros i X. destruct k2 as [j|]; [|discriminate]. inversion X; subst. destruct (C j eq_refl). split; [assumption | cbn [length]; lia].
+        destruct (IH _ _ _ _ _ _ _ E) as [A [B C]]. intro H. inversion H; subst.
+        split; [constructor; [left; reflexivity | exact A]|]. split; [destruct k2; [discriminate | exact B]|].
+        intros i X. destruct k2 as [j|]; [|discriminate]. inversion X; subst. destruct (C j eq_refl) as [C1 [C2 C3]].
+        split; [assumption|]. split; [cbn [length]; lia | exact C3].
       * destruct (bm_g bufs_modified now aw lk x fs sch) as [[[[blk0 st0] x'] fs0] r0] eqn:E0.
-        destruct (bm_g_record _ _ _ _ _ _ _ _ _ _ _ E0) as [F [Bk _]].
+        destruct (bm_g_record _ _ _ _ _ _ _ _ _ _ _ E0) as [F [Bk [K _]]].
         destruct blk0.
-        -- intro H. inversion H; subst. cbn [map]. rewrite F. split; [reflexivity|]. split; [discriminate|].
-           intros i X. inversion X; subst. split; [exact (proj1 Bk eq_refl) | cbn [length]; lia].
+        -- intro H. inversion H; subst. pose proof (proj1 Bk eq_refl) as NS. rewrite (K NS).
+           split; [apply kos_refl|]. split; [discriminate|].
+           intros i X. inversion X; subst. split; [exact NS|]. split; [cbn [length]; lia | reflexivity].
         -- destruct (quit_scan bufs_modified now aw false false lk rest fs0 r0) as [[[[k2 st2] rest'] fs2] r2] eqn:E.
-           destruct (IH _ _ _ _ _ _ _ E) as [A [B C]]. intro H. inversion H; subst. cbn [map]. rewrite A, F.
-           split; [reflexivity|]. split; [destruct k2; [discriminate | exact B]|].
-           intros i X. destruct k2 as [j|]; [|discriminate]. inversion X; subst. destruct (C j eq_refl). split; [assumption | cbn [length]; lia].
+           destruct (IH _ _ _ _ _ _ _ E) as [A [B C]]. intro H. inversion H; subst.
+           split; [constructor; [exact F | exact A]|]. split; [destruct k2; [discriminate | exact B]|].
+           intros i X. destruct k2 as [j|]; [|discriminate]. inversion X; subst. destruct (C j eq_refl) as [C1 [C2 C3]].
+           split; [assumption|]. split; [cbn [length]; lia | exact C3].
 Qed.
-Lemma quit_scan_inv now aw all bang lk : forall tb fs sch k st tb' fs' r,
-  quit_scan bufs_modified now aw all bang lk tb fs sch = (k, st, tb', fs', r) ->
-  Forall (fun x : gbuf => (b_mtime (fst x) <= now)%Z) tb -> aw_inv tb -> aw_inv tb'.
-Proof.
-  unfold aw_inv. induction tb as [|x rest IH]; intros fs sch k st tb' fs' r.
-  - cbn [quit_scan]. intro H. inversion H; subst. auto.
-  - cbn [quit_scan]. intros H C I. inversion C as [|? ? C1 C2]; subst. inversion I as [|? ? I1 I2]; subst. revert H. destruct all.
-    + destruct (lbuf_save_l now (b_lines (fst x)) 0 (length (b_lines (fst x))) lk (b_path (fst x)) bang (b_mtime (fst x)) fs sch) as [[st0 fs0] r0] eqn:E0.
-      destruct st0; [|intro H; inversion H; subst; exact I|intro H; inversion H; subst; exact I].
-      destruct (quit_scan bufs_modified now aw true bang lk rest fs0 r0) as [[[[k2 st2] rest'] fs2] r2] eqn:E.
-      intro H. inversion H; subst. constructor; [|exact (IH _ _ _ _ _ _ _ E C2 I2)].
-      cbn [fst snd]. rewrite (lbuf_save_l_ok_stamp _ _ _ _ _ _ _ _ _ _ _ _ E0). exact C1.
-    + destruct bang.
-      * destruct (quit_scan bufs_modified now aw false true lk rest fs sch) as [[[[k2 st2] rest'] fs2] r2] eqn:E.
-        intro H. inversion H; subst. constructor; [exact I1 | exact (IH _ _ _ _ _ _ _ E C2 I2)].
-      * destruct (bm_g bufs_modified now aw lk x fs sch) as [[[[blk0 st0] x'] fs0] r0] eqn:E0.
-        pose proof (bm_g_inv _ _ _ _ _ _ _ _ _ _ _ E0 C1 I1) as X.
-        destruct blk0.
-        -- intro H. inversion H; subst. constructor; assumption.
-        -- destruct (quit_scan bufs_modified now aw false false lk rest fs0 r0) as [[[[k2 st2] rest'] fs2] r2] eqn:E.
-           intro H. inversion H; subst. constructor; [exact X | exact (IH _ _ _ _ _ _ _ E C2 I2)].
-Qed.
+Lemma quit_scan_inv now aw all bang lk tb fs sch k st tb' fs' r :
+  quit_scan bufs_modified now aw all bang lk tb fs sch = (k, st, tb', fs', r) -> aw_inv tb -> aw_inv tb'.
+Proof. intros H I. exact (kos_inv _ _ (proj1 (quit_scan_record _ _ _ _ _ _ _ _ _ _ _ _ _ H)) I). Qed.
 (* the first slot the loop has to save (xa: slot 0; q: the first modified slot, option on or off) is newer on disk:
    the loop stops there, nothing consumed, nothing changed *)
 Lemma quit_scan_newer now aw all lk : forall (pre : list gbuf) (x : gbuf) (rest : list gbuf) fs sch,
@@ -269,28 +258,28 @@ Proof.
     rewrite E, (IH x rest fs sch P2 I N D). reflexivity.
 Qed.
 Lemma quit_g_inv now aw wr isx all bang lk a tb fs sch q st tb' fs' r :
-  quit_g bufs_modified now aw wr isx all bang lk a tb fs sch = (q, st, tb', fs', r) ->
-  Forall (fun x : gbuf => (b_mtime (fst x) <= now)%Z) tb -> aw_inv tb -> aw_inv tb'.
+  quit_g bufs_modified now aw wr isx all bang lk a tb fs sch = (q, st, tb', fs', r) -> aw_inv tb -> aw_inv tb'.
 Proof.
-  unfold quit_g. intros H C I.
+  unfold quit_g. intros H I.
   assert (W : exists st1 tb1 fs1 r1, (if wr then write_g now isx bang None lk a tb fs sch else (SOk, tb, fs, sch)) = (st1, tb1, fs1, r1)
-              /\ aw_inv tb1 /\ Forall (fun x : gbuf => (b_mtime (fst x) <= now)%Z) tb1).
+              /\ aw_inv tb1).
   { destruct wr.
     - destruct (write_g now isx bang None lk a tb fs sch) as [[[st1 tb1] fs1] r1] eqn:E.
-      destruct (write_g_inv _ _ _ _ _ _ _ _ _ _ _ _ _ E) as [A B]. exists st1, tb1, fs1, r1. auto.
+      exists st1, tb1, fs1, r1. split; [reflexivity | exact (write_g_inv _ _ _ _ _ _ _ _ _ _ _ _ _ E I)].
     - exists SOk, tb, fs, sch. auto. }
-  destruct W as [st1 [tb1 [fs1 [r1 [E [I1 C1]]]]]]. rewrite E in H.
+  destruct W as [st1 [tb1 [fs1 [r1 [E I1]]]]]. rewrite E in H.
   destruct st1; [|inversion H; subst; exact I1|inversion H; subst; exact I1].
   destruct (quit_scan bufs_modified now aw all bang lk tb1 fs1 r1) as [[[[k st2] tb2] fs2] r2] eqn:Q.
-  pose proof (quit_scan_inv _ _ _ _ _ _ _ _ _ _ _ _ _ Q C1 I1) as I2.
+  pose proof (quit_scan_inv _ _ _ _ _ _ _ _ _ _ _ _ _ Q I1) as I2.
   destruct k; inversion H; subst; [apply Forall_sw; exact I2 | exact I2].
 Qed.
 (* not quitting: every record is what it was before the loop (the refused :q / :xa only brings the slot to the front) *)
 Lemma quit_g_record now aw wr isx all bang lk a tb fs sch q st tb' fs' r :
   quit_g bufs_modified now aw wr isx all bang lk a tb fs sch = (q, st, tb', fs', r) ->
   (q = false <-> st <> SOk) /\
-  (st <> SOk -> exists tb1, Permutation (map fst tb') (map fst tb1) /\
-      ((wr = false /\ tb1 = tb) \/ (wr = true /\ exists st1 fs1 r1, write_g now isx bang None lk a tb fs sch = (st1, tb1, fs1, r1)))).
+  (st <> SOk -> exists tb1 tb2 i,
+      ((wr = false /\ tb1 = tb) \/ (wr = true /\ exists st1 fs1 r1, write_g now isx bang None lk a tb fs sch = (st1, tb1, fs1, r1))) /\
+      Forall2 kept_or_saved tb1 tb2 /\ skipn i tb2 = skipn i tb1 /\ tb' = sw tb2 i).
 Proof.
   unfold quit_g.
   destruct (if wr then write_g now isx bang None lk a tb fs sch else (SOk, tb, fs, sch)) as [[[st1 tb1] fs1] r1] eqn:E.
@@ -300,20 +289,23 @@ Proof.
   - destruct (quit_scan bufs_modified now aw all bang lk tb1 fs1 r1) as [[[[k st2] tb2] fs2] r2] eqn:Q.
     destruct (quit_scan_record _ _ _ _ _ _ _ _ _ _ _ _ _ Q) as [A [B C]].
     destruct k as [i|]; intro H; inversion H; subst.
-    + destruct (C i eq_refl) as [C1 _]. split; [split; [intros _; exact C1 | reflexivity]|].
-      intros _. exists tb1. split; [|exact T]. rewrite map_sw, A. apply sw_perm.
+    + destruct (C i eq_refl) as [C1 [_ C3]]. split; [split; [intros _; exact C1 | reflexivity]|].
+      intros _. exists tb1, tb2, i. repeat split; assumption.
     + rewrite (B eq_refl). split; [split; [discriminate | congruence]|]. congruence.
-  - intro H. inversion H; subst. split; [split; [discriminate | reflexivity]|]. intros _. exists tb'. split; [apply Permutation_refl | exact T].
-  - intro H. inversion H; subst. split; [split; [discriminate | reflexivity]|]. intros _. exists tb'. split; [apply Permutation_refl | exact T].
+  - intro H. inversion H; subst. split; [split; [discriminate | reflexivity]|]. intros _. exists tb', tb', (length tb').
+    split; [exact T|]. split; [apply kos_refl|]. split; [reflexivity|].
+    unfold sw. replace (nth_error tb' (length tb')) with (@None gbuf); [reflexivity|]. symmetry. apply nth_error_None. apply Nat.le_refl.
+  - intro H. inversion H; subst. split; [split; [discriminate | reflexivity]|]. intros _. exists tb', tb', (length tb').
+    split; [exact T|]. split; [apply kos_refl|]. split; [reflexivity|].
+    unfold sw. replace (nth_error tb' (length tb')) with (@None gbuf); [reflexivity|]. symmetry. apply nth_error_None. apply Nat.le_refl.
 Qed.
 
 (* ------------------------------------------------------------------ ec_edit, ec_buffer, ec_exec *)
 Lemma edit_g_inv now aw bang lk a tb fs sch st tb' fs' r :
-  edit_g bufs_modified now aw bang lk a tb fs sch = (st, tb', fs', r) ->
-  Forall (fun x : gbuf => (b_mtime (fst x) <= now)%Z) tb -> aw_inv tb -> aw_inv tb'.
+  edit_g bufs_modified now aw bang lk a tb fs sch = (st, tb', fs', r) -> aw_inv tb -> aw_inv tb'.
 Proof.
   unfold edit_g. destruct (leave0 bufs_modified now aw bang lk tb fs sch) as [[[[blk st0] tb1] fs1] r1] eqn:L.
-  intros H C I. pose proof (leave0_inv _ _ _ _ _ _ _ _ _ _ _ _ L C I) as I1. unfold aw_inv in *.
+  intros H I. pose proof (leave0_inv _ _ _ _ _ _ _ _ _ _ _ _ L I) as I1. unfold aw_inv in *.
   destruct blk; [inversion H; subst; exact I1|].
   assert (G : forall st tb', match path_of_arg (map fst tb1) a with
               | None => (SRefused, tb1, fs1, r1)
@@ -321,30 +313,28 @@ Proof.
                           | Some i => (SOk, sw tb1 i, fs1, r1)
                           | None => let b := ec_edit_l lk fs1 p in (SOk, push tb1 (b, b_mtime b), fs1, r1)
                           end
-              end = (st, tb', fs', r) -> Forall (fun x : gbuf => (b_mtime (fst x) <= snd x)%Z) tb').
+              end = (st, tb', fs', r) -> Forall (fun x : gbuf => b_mtime (fst x) = snd x) tb').
   { intros st2 tb2. destruct (path_of_arg (map fst tb1) a) as [p|]; [|intro X; inversion X; subst; exact I1].
     destruct (bufs_find (map fst tb1) p); intro X; inversion X; subst.
     - apply Forall_sw. exact I1.
-    - apply Forall_push; [cbv zeta; cbn [fst snd]; apply Z.le_refl | exact I1]. }
+    - apply Forall_push; [cbv zeta; cbn [fst snd]; reflexivity | exact I1]. }
   destruct a; try exact (G _ _ H).
   destruct tb1 as [|[b0 g0] rest]; [exact (G _ _ H)|].
-  inversion H; subst. inversion I1; subst. constructor; [cbn [fst snd b_mtime]; lia | assumption].
+  inversion H; subst. inversion I1; subst. constructor; [cbn [fst snd b_mtime]; reflexivity | assumption].
 Qed.
 Lemma buffer_g_inv now aw bang lk i tb fs sch st tb' fs' r :
-  buffer_g bufs_modified now aw bang lk i tb fs sch = (st, tb', fs', r) ->
-  Forall (fun x : gbuf => (b_mtime (fst x) <= now)%Z) tb -> aw_inv tb -> aw_inv tb'.
+  buffer_g bufs_modified now aw bang lk i tb fs sch = (st, tb', fs', r) -> aw_inv tb -> aw_inv tb'.
 Proof.
   unfold buffer_g. destruct (i <? length tb); [|intro H; inversion H; subst; auto].
   destruct (leave0 bufs_modified now aw bang lk tb fs sch) as [[[[blk st0] tb1] fs1] r1] eqn:L.
-  intros H C I. pose proof (leave0_inv _ _ _ _ _ _ _ _ _ _ _ _ L C I) as I1.
+  intros H I. pose proof (leave0_inv _ _ _ _ _ _ _ _ _ _ _ _ L I) as I1.
   destruct blk; inversion H; subst; [exact I1 | apply Forall_sw; exact I1].
 Qed.
 Lemma exec_g_inv now aw lk ops tb fs sch st tb' lk' fs' r :
-  exec_g bufs_modified now aw lk ops tb fs sch = (st, tb', lk', fs', r) ->
-  Forall (fun x : gbuf => (b_mtime (fst x) <= now)%Z) tb -> aw_inv tb -> aw_inv tb'.
+  exec_g bufs_modified now aw lk ops tb fs sch = (st, tb', lk', fs', r) -> aw_inv tb -> aw_inv tb'.
 Proof.
   unfold exec_g. destruct (leave0 bufs_modified now aw false lk tb fs sch) as [[[[blk st0] tb1] fs1] r1] eqn:L.
-  intros H C I. pose proof (leave0_inv _ _ _ _ _ _ _ _ _ _ _ _ L C I) as I1.
+  intros H I. pose proof (leave0_inv _ _ _ _ _ _ _ _ _ _ _ _ L I) as I1.
   destruct blk; [inversion H; subst; exact I1|].
   destruct (foreign_run (lk, fs1) ops). inversion H; subst. exact I1.
 Qed.
@@ -362,38 +352,36 @@ Proof.
 Qed.
 
 (* ------------------------------------------------------------------ whole histories *)
-Lemma step_inv s c :
-  match cmd_now c with Some now => Forall (fun x : gbuf => (b_mtime (fst x) <= now)%Z) (e_tb s) | None => True end ->
-  aw_inv (e_tb s) -> aw_inv (e_tb (step bufs_modified s c)).
+Lemma step_inv s c : aw_inv (e_tb s) -> aw_inv (e_tb (step bufs_modified s c)).
 Proof.
-  intros C I. destruct c; cbn [step cmd_now] in *.
+  intros I. destruct c; cbn [step] in *.
   - destruct (e_quit s); [exact I | exact I].
   - destruct (e_quit s); [exact I|]. cbn [e_tb]. destruct (e_tb s) as [|[b0 g0] rest]; [constructor|].
     inversion I; subst. constructor; [cbn [fst snd b_mtime] in *; assumption | assumption].
   - destruct (foreign (e_lk s, e_fs s) o). exact I.
   - destruct (e_quit s); [exact I|].
     destruct (write_g now isx force rng (e_lk s) a (e_tb s) (e_fs s) sch) as [[[st tb'] fs'] r] eqn:E. cbn [e_tb].
-    exact (proj1 (write_g_inv _ _ _ _ _ _ _ _ _ _ _ _ _ E) I).
+    exact (write_g_inv _ _ _ _ _ _ _ _ _ _ _ _ _ E I).
   - destruct (e_quit s); [exact I|].
     destruct (quit_g bufs_modified now (e_aw s) wr isx all bang (e_lk s) a (e_tb s) (e_fs s) sch) as [[[[q st] tb'] fs'] r] eqn:E. cbn [e_tb].
-    eapply quit_g_inv; [exact E | exact C | exact I].
+    eapply quit_g_inv; [exact E | exact I].
   - destruct (e_quit s); [exact I|].
     destruct (edit_g bufs_modified now (e_aw s) bang (e_lk s) a (e_tb s) (e_fs s) sch) as [[[st tb'] fs'] r] eqn:E. cbn [e_tb].
-    eapply edit_g_inv; [exact E | exact C | exact I].
+    eapply edit_g_inv; [exact E | exact I].
   - destruct (e_quit s); [exact I|].
     destruct (buffer_g bufs_modified now (e_aw s) bang (e_lk s) i (e_tb s) (e_fs s) sch) as [[[st tb'] fs'] r] eqn:E. cbn [e_tb].
-    eapply buffer_g_inv; [exact E | exact C | exact I].
+    eapply buffer_g_inv; [exact E | exact I].
   - destruct (e_quit s); [exact I|].
     destruct (exec_g bufs_modified now (e_aw s) (e_lk s) ops (e_tb s) (e_fs s) sch) as [[[[st tb'] lk'] fs'] r] eqn:E. cbn [e_tb].
-    eapply exec_g_inv; [exact E | exact C | exact I].
+    eapply exec_g_inv; [exact E | exact I].
 Qed.
-Lemma run_inv : forall h s, clock_ok bufs_modified s h -> aw_inv (e_tb s) -> aw_inv (e_tb (run bufs_modified s h)).
+Lemma run_inv : forall h s, aw_inv (e_tb s) -> aw_inv (e_tb (run bufs_modified s h)).
 Proof.
-  induction h as [|c h IH]; intros s C I; [exact I|].
-  cbn [run fold_left]. destruct C as [C1 C2]. apply IH; [exact C2 | exact (step_inv s c C1 I)].
+  induction h as [|c h IH]; intros s I; [exact I|].
+  cbn [run fold_left]. apply IH. exact (step_inv s c I).
 Qed.
 Lemma start_inv lk fs p : aw_inv (e_tb (start lk fs p)).
-Proof. unfold start, aw_inv. cbn [e_tb]. constructor; [cbn [fst snd]; lia | constructor]. Qed.
+Proof. unfold start, aw_inv. cbn [e_tb]. constructor; [cbn [fst snd]; reflexivity | constructor]. Qed.
 
 (* ------------------------------------------------------------------ the same guards over the REMEMBERED stamp (no ghost, no history):
    whenever the file's stamp is later than the stamp the slot remembers, every save without ! of that slot is refused *)
@@ -450,7 +438,7 @@ Lemma bm_g_ok_exact now lk x fs sch blk st x' fs' r :
 Proof.
   unfold bm_g, bufs_modified. destruct x as [bf g]. cbn [fst snd]. intros H D B. rewrite D in H. cbn [negb andb] in H.
   destruct (lbuf_save_l now (b_lines bf) 0 (length (b_lines bf)) lk (b_path bf) false (b_mtime bf) fs sch) as [[st0 fs0] r0] eqn:E.
-  inversion H; subst. destruct st; try discriminate. split; [reflexivity|].
+  destruct st0; inversion H; subst; try discriminate. split; [reflexivity|].
   destruct (lbuf_save_l_ok _ _ _ _ _ _ _ _ _ _ _ _ E) as [q [R C]]. exists q. split; [exact R|].
   rewrite C. unfold want, slice. rewrite Nat.sub_0_r, firstn_all. reflexivity.
 Qed.
@@ -473,7 +461,7 @@ Proof.
   unfold bm_g, bufs_modified. destruct x as [bf g]. cbn [fst snd]. destruct (b_dirty bf); cbn [negb andb].
   - destruct aw.
     + destruct (lbuf_save_l now (b_lines bf) 0 (length (b_lines bf)) lk (b_path bf) false (b_mtime bf) fs sch) as [[st0 fs0] r0] eqn:E.
-      intros H N. inversion H; subst. exact (lbuf_save_l_other _ _ _ _ _ _ _ _ _ _ _ _ _ _ E N).
+      destruct st0; intros H N; inversion H; subst; exact (lbuf_save_l_other _ _ _ _ _ _ _ _ _ _ _ _ _ _ E N).
     + intros H _. inversion H; subst. reflexivity.
   - intros H _. inversion H; subst. reflexivity.
 Qed.
